@@ -215,6 +215,9 @@ impl<S: Scanner> System for IsoSys<S> {
             IAct::Reset => "reset".to_string(),
         }
     }
+    fn rust_preamble(&self) -> String {
+        format!("// {} created with new() (polling: new(Duration::from_millis({}))); compare with a second scanner fed only one channel's inputs\n    let mut clock = 0u64;", S::NAME, self.timeout)
+    }
     fn rust_line(&self, a: &IAct) -> String {
         match a {
             IAct::Cc(slot, c, v) => format!("println!(\"{{:?}}\", scanner.feed(&helgoboss_midi::test_util::control_change({}, {}, {})));", self.chans[*slot as usize], c, v),
